@@ -62,6 +62,15 @@ pub struct Step {
 pub struct Case {
     pub steps: Vec<Step>,
     pub bytes: bool,
+    /// (typed channels) where the receiver under test comes from: 0 `channel()`, 1 the receiver
+    /// returned by a one-shot server's `accept`, 2 a receiver that was polled and then transferred
+    /// through another channel
+    #[serde(default)]
+    pub origin: u8,
+    /// > 0: before the script, a blocking `recv` is issued on the connected but idle channel and
+    /// the only message is sent this many milliseconds later: the call must wait for it
+    #[serde(default)]
+    pub idle_ms: u32,
 }
 
 fn msg_len(class: u8) -> usize {
@@ -105,6 +114,8 @@ fn timeout_strategy() -> BoxedStrategy<u64> {
         2 => Just(1_500_000u64),
         6 => 5_000_000u64..50_000_000,
         1 => 100_000_000u64..300_000_000,
+        // "practically for ever" (such calls are only issued when the script makes them return)
+        1 => prop_oneof![Just(u64::MAX), Just(i64::MAX as u64), Just(4_000_000_000_000_000u64)],
     ]
     .boxed()
 }
@@ -142,9 +153,25 @@ impl Prop for C10 {
             1 => (0u32..3000).prop_map(|delay_us| Action::DropDuring { delay_us }),
             1 => Just(Action::HugeInProgress),
         ];
-        (proptest::collection::vec((op, action).prop_map(|(op, action)| Step { op, action }), 1..=30), proptest::bool::weighted(0.25))
-            .prop_map(|(steps, bytes)| Case { steps, bytes })
+        (proptest::collection::vec((op, action).prop_map(|(op, action)| Step { op, action }), 1..=30), proptest::bool::weighted(0.25), prop_oneof![3 => Just(0u8), 1 => Just(1u8), 1 => Just(2u8)], prop_oneof![6 => Just(0u32), 1 => 1u32..60])
+            .prop_map(|(steps, bytes, origin, idle_ms)| Case { steps, bytes, origin, idle_ms })
             .boxed()
+    }
+
+    fn enumerated(ctx: &Ctx) -> Vec<Case> {
+        // long silences: a blocking receive must outlast them whatever the receiver's origin
+        // (time-outs left armed on a descriptor are typically whole seconds)
+        let idle_ms = if ctx.thorough { 11_000 } else { 1_300 };
+        let mut v = vec![];
+        for origin in 0..3u8 {
+            for bytes in [false, true] {
+                if bytes && origin != 0 {
+                    continue;
+                }
+                v.push(Case { steps: vec![Step { op: Op::TryRecv, action: Action::Nothing }, Step { op: Op::Recv, action: Action::SendDuring { delay_us: 2000, size: 0 } }], bytes, origin, idle_ms });
+            }
+        }
+        v
     }
 
     fn exec(_ctx: &Ctx, case: &Case) -> Result<Outcome, Failure> {
@@ -171,6 +198,26 @@ fn run(case: &Case) -> Result<Outcome, Failure> {
     } else {
         let (t, r) = ipc::channel::<Node>().map_err(|e| Failure::inconclusive(e.to_string()))?;
         (Tx::T(t), Rx::T(r))
+    };
+    let origin = if case.bytes { 0 } else { case.origin % 3 };
+    let (tx, rx) = match (origin, tx, rx) {
+        (1, Tx::T(_), Rx::T(_)) => {
+            let inc = |e: String| Failure::inconclusive(format!("one-shot bootstrap: {}", e));
+            let (server, name) = ipc::IpcOneShotServer::<Node>::new().map_err(|e| inc(e.to_string()))?;
+            let t = ipc::IpcSender::<Node>::connect(name).map_err(|e| inc(e.to_string()))?;
+            t.send(Node::Unit).map_err(|e| inc(e.to_string()))?;
+            let (r, _first) = server.accept().map_err(|e| inc(e.to_string()))?;
+            (Tx::T(t), Rx::T(r))
+        },
+        (2, Tx::T(t), Rx::T(r)) => {
+            let inc = |e: String| Failure::inconclusive(format!("receiver transfer: {}", e));
+            let (ct, cr) = ipc::channel::<ipc::IpcReceiver<Node>>().map_err(|e| inc(e.to_string()))?;
+            let _ = r.try_recv();
+            ct.send(r).map_err(|e| inc(e.to_string()))?;
+            let r = cr.recv().map_err(|e| inc(format!("{:?}", e)))?;
+            (Tx::T(t), Rx::T(r))
+        },
+        (_, t, r) => (t, r),
     };
     // sender thread: executes commands; owns the only sender handle
     let (cmd_tx, cmd_rx) = mpsc::channel::<Cmd>();
@@ -216,6 +263,41 @@ fn run(case: &Case) -> Result<Outcome, Failure> {
     let mut had_empty = false;
     let mut stats = (0u32, 0u32, 0u32); // recv-after-empty, event-during-timed-wait, sub-ms timeouts
     let mut rx = Some(rx);
+    if case.idle_ms > 0 {
+        let (rt, rr) = mpsc::channel();
+        cmd_tx.send(Cmd::Send { size: 0, delay_us: case.idle_ms.saturating_mul(1000), seq: next_send, reply: rt }).unwrap();
+        next_send += 1;
+        let r = rx.take().unwrap();
+        let t0 = Instant::now();
+        let called = sandbox::watched_for(Duration::from_millis(case.idle_ms as u64) + Duration::from_secs(sandbox::watchdog_secs()), move || {
+            let res = match &r {
+                Rx::T(r) => match r.recv() {
+                    Ok(Node::Tagged { body, .. }) => Ok(body),
+                    Ok(_) => Err("unexpected value".to_string()),
+                    Err(e) => Err(format!("{:?}", e)),
+                },
+                Rx::B(r) => r.recv().map_err(|e| format!("{:?}", e)),
+            };
+            (r, res)
+        });
+        let (r, res) = match called {
+            Ok(x) => x,
+            Err(h) => return Err(sandbox::hang_failure("idle:recv-hangs", &format!("blocking recv on an idle channel whose only message was sent after {} ms", case.idle_ms), h)),
+        };
+        match decode(res) {
+            Res::Msg(s) if s == next_recv => next_recv += 1,
+            other => fail!(
+                "idle:blocking-recv-gave-up",
+                "a blocking recv on a connected, idle channel (receiver obtained by {}) returned {:?} after {:?}; the only message was sent {} ms after the call began",
+                ["channel()", "IpcOneShotServer::accept", "transfer through another channel after a try_recv"][origin as usize],
+                other,
+                t0.elapsed(),
+                case.idle_ms
+            ),
+        }
+        let _ = rr.recv();
+        rx = Some(r);
+    }
     for (si, st) in case.steps.iter().enumerate() {
         // --- normalise the step against the state so that nothing can block forever --------------------
         let mut action = st.action.clone();
@@ -229,7 +311,8 @@ fn run(case: &Case) -> Result<Outcome, Failure> {
                 op = Op::TryRecv; // bytes receivers have no timed receive
             }
         }
-        if op == Op::Recv {
+        let for_ever = matches!(op, Op::Timeout(ns) if ns >= 3_600_000_000_000);
+        if op == Op::Recv || for_ever {
             let will_return = queued > 0 || sender_dropped || matches!(action, Action::SendBefore(_) | Action::SendDuring { .. } | Action::DropBefore | Action::DropDuring { .. } | Action::HugeInProgress);
             if !will_return {
                 op = Op::TryRecv;
